@@ -126,12 +126,37 @@ def leanchecker(modules, timeout=3000):
     return p.returncode == 0, (p.stdout + p.stderr)[-1500:]
 
 
+def failed_declarations(log):
+    """name the theorem / definition around each error location of a lake log"""
+    out = []
+    for m in re.finditer(r"error: ([\w/\.]+\.lean):(\d+):\d+", log):
+        path, ln = os.path.join(LEAN_DIR, m.group(1)), int(m.group(2))
+        name = None
+        try:
+            lines = open(path).read().split("\n")
+            for k in range(min(ln, len(lines)) - 1, -1, -1):
+                mm = re.match(r"\s*(?:private\s+)?(?:theorem|def|example|lemma|instance)\s+([^\s:(\[{]+)?", lines[k])
+                if mm:
+                    name = mm.group(1) or "example"
+                    break
+        except OSError:
+            pass
+        item = "%s:%d (%s)" % (m.group(1), ln, name)
+        if item not in out:
+            out.append(item)
+    return out[:10]
+
+
 def audit(ctx, modules, theorems):
     """Build, grep, #print axioms.  Returns (ok, details dict) and fills ctx.coverage."""
-    ok, log, dt = lake_build()
-    details = {"lake_build_ok": ok, "lake_build_s": round(dt, 1)}
+    # only this property's theorem modules (with what they import) and the driver: an obligation of ANOTHER property that
+    # no longer checks must not raise an alarm here
+    targets = tuple(dict.fromkeys(list(modules) + ["driver"]))
+    ok, log, dt = lake_build(targets=targets)
+    details = {"lake_build_ok": ok, "lake_build_s": round(dt, 1), "lake_targets": list(targets)}
     if not ok:
         details["lake_log_tail"] = log[-3000:]
+        details["failed_at"] = failed_declarations(log)
     hits = grep_forbidden()
     details["forbidden_hits"] = hits
     axioms = {}
